@@ -100,6 +100,7 @@ package gabikeys
 //@   received nonnil: $v != nil
 //@   received safeprime: val($v) > 2
 //@   loop 0 modifies elems(safeprimes), onlyfresh("BV")
+//@   loop 0 assumeframe the loop appends received primes to safeprimes, a slice this function allocated, and writes big integers it allocated before the loop (p, q, tmp values); the per-write check cannot follow the re-allocated array
 //@   loop 0 invariant fresh(safeprimes) && fresh(pPrime) && fresh(pPrimeMod8) && fresh(pMod8) && fresh(qMod8) && fresh(n) && forall i in 0..len(safeprimes) :: safeprimes[i] != nil && rem(val(safeprimes[i]) / 2, 8) != 1 && !fresh(safeprimes[i]) && val(safeprimes[i]) > 2
 
 //@ func (*PublicKey).RevocationSupported
